@@ -1,9 +1,11 @@
 /-
-Driver for C02 (no double submission; retries): `Sched` correspondence + judge on the observed trace.
+Driver for C02 (no double submission; retries): correspondence with `Sched` extended by job-file preparation
+failures (`SchedPF`) + judge on the observed trace.
 
 Judge (from the property text, on what the REAL scheduler did), per instance (p, name) with N execution and M
 submission retry delays:
-* the launches, in order, carry the submit numbers 1, 2, 3, … (distinct, consecutive);
+* the submissions (launches, and attempts whose job-file preparation failed - observation key `prepfail`), in order,
+  carry the submit numbers 1, 2, 3, … (distinct, consecutive);
 * each launch after the first is preceded, since the previous launch, by a `failed` / `submission failed` event
   that was handled as a retry (task back to waiting) while a retry remained: the judge counts the retries itself
   (execution retries over the whole life; submission retries since the last `started`) and requires the count
@@ -15,6 +17,7 @@ The hypothesis `Graph.wf` of the theorems is checked on every real graph.
 -/
 import CylcModel.SchedObsC01
 import CylcModel.SchedHypC01
+import CylcModel.SchedPF
 open Lean CylcModel.Drv CylcModel.Sched CylcModel.SchedObs
 
 namespace CylcModel.DrvC02
@@ -86,7 +89,12 @@ def judgeObs (i : Json) (idx : Nat) (accs : List Acc) (ob : Json) : Except Strin
   -- within one operation launches come first (release happens before message processing in a main loop;
   -- the other operations launch nothing)
   let mut accs := accs
-  let ls := launchesOf ob
+  -- a submission attempt whose job-file preparation failed counts as a submission
+  let pf : List (Int × String × Nat) := ((jArrField? ob "prepfail").getD []).filterMap fun l =>
+    match jArr? l with
+    | some [p, n, sn] => do pure (← jInt? p, ← jStr? n, ← jNat? sn)
+    | _ => none
+  let ls := launchesOf ob ++ pf
   -- two launches of one instance in one operation
   for l in ls do
     if (ls.filter fun l' => l'.1 == l.1 && l'.2.1 == l.2.1).length > 1 then
@@ -97,7 +105,7 @@ def judgeObs (i : Json) (idx : Nat) (accs : List Acc) (ob : Json) : Except Strin
     accs ← judgeMsg i idx accs r
   return accs
 
-def judge (i : Json) (c : Case) (o : Json) : Option String :=
+def judge (i : Json) (c : CaseX) (o : Json) : Option String :=
   if !c.graph.wf then some "hypothesis-violated: a task of the extracted graph lacks a standard output (Graph.wf)"
   else
     let rec go (idx : Nat) (accs : List Acc) : List Json → Option String
@@ -110,10 +118,10 @@ def judge (i : Json) (c : Case) (o : Json) : Option String :=
 
 def handle (i o : Json) : Except String Reply := do
   if let some r := crashReply? i then return r
-  let c ← parseCase i
+  let c ← parseCaseX i
   match judge i c o with
-  | some w => return { model := modelObs c, holds := false, why := w }
-  | none => return { model := modelObs c, holds := true }
+  | some w => return { model := modelObsX c, holds := false, why := w }
+  | none => return { model := modelObsX c, holds := true }
 
 end CylcModel.DrvC02
 
